@@ -28,14 +28,14 @@ Qed.
 (** ** receiver: tests, size computation and slices *)
 
 Lemma gen_ingest_more_eq d m : gen_ingest_more d m = (2 <? length d).
-Proof. reflexivity. Qed.
+Proof. unfold gen_ingest_more. py_arith. Qed.
 
 Lemma gen_ingest_is_marker_eq d m :
   gen_ingest_is_marker d m = (N.eqb (nth 0 d 0%N) 172 && N.eqb (nth 1 d 0%N) 190).
-Proof. reflexivity. Qed.
+Proof. unfold gen_ingest_is_marker. py_arith. Qed.
 
 Lemma gen_ingest_has_header_eq d m : gen_ingest_has_header d m = (4 <? length d).
-Proof. reflexivity. Qed.
+Proof. unfold gen_ingest_has_header. py_arith. Qed.
 
 Lemma wf_bytes_nth d i : wf_bytes d = true -> (nth i d 0 < 256)%N.
 Proof.
@@ -64,27 +64,27 @@ Lemma gen_resync_mismatch_pre_ok d m : 2 <= length d -> gen_resync_mismatch_pre 
 Proof. intros H. unfold gen_resync_mismatch_pre. py_unfold. split; [lia | intros _; lia]. Qed.
 
 Lemma gen_ingest_complete_eq d m : gen_ingest_complete d m = (m + 4 <=? nlen d)%N.
-Proof. reflexivity. Qed.
+Proof. unfold gen_ingest_complete. py_arith. Qed.
 
 Lemma gen_ingest_raw_eq d m : gen_ingest_raw d m = slice 4 (4 + N.to_nat m) d.
 Proof.
-  unfold gen_ingest_raw. rewrite py_slice_slice. f_equal; lia.
+  unfold gen_ingest_raw. py_arith.
 Qed.
 
 Lemma gen_ingest_rest_eq d m : gen_ingest_rest d m = skipn (N.to_nat m + 4) d.
 Proof.
-  unfold gen_ingest_rest. py_unfold. f_equal; lia.
+  unfold gen_ingest_rest. py_arith.
 Qed.
 
 Lemma gen_resync_more_eq d m : gen_resync_more d m = (2 <=? length d).
-Proof. reflexivity. Qed.
+Proof. unfold gen_resync_more. py_arith. Qed.
 
 Lemma gen_resync_mismatch_eq d m :
   gen_resync_mismatch d m = (negb (N.eqb (nth 0 d 0%N) 172) || negb (N.eqb (nth 1 d 0%N) 190)).
-Proof. reflexivity. Qed.
+Proof. unfold gen_resync_mismatch. py_arith. Qed.
 
 Lemma gen_resync_drop_eq d m : gen_resync_drop d m = skipn 1 d.
-Proof. reflexivity. Qed.
+Proof. unfold gen_resync_drop. py_arith. Qed.
 
 (** ** the two loops re-expressed over the generated pieces
 
